@@ -241,8 +241,18 @@ def validate_translation(ctx, ob, tcfg, cfile, entry, nvec, insts):
     exe_n = build_native(ctx, ob, tcfg)
     exe_c = cfile[:-2] + ".concrete"
     cmd = ["gcc", "-O1", "-w", "-I", os.path.join(ROOT, "models"), "-DVERIF_MAIN=verif_main_" + entry, cfile,
-           os.path.join(ROOT, "models", "models.c")] + [os.path.join(ROOT, "models", m) for m in ob.get("models", [])] + ["-o", exe_c, "-lm", "-Wl,--unresolved-symbols=ignore-all"]
+           os.path.join(ROOT, "models", "models.c")] + [os.path.join(ROOT, "models", m) for m in ob.get("models", [])] + ["-o", exe_c, "-lm"]
     rc, out, dt, to = run(cmd, timeout=600)
+    if rc != 0 and "undefined reference" in out:
+        # functions that are referenced but never reached symbolically (CBMC reports an unmodelled *reachable*
+        # callee as an error): give the concrete build aborting definitions so it links
+        missing = sorted(set(re.findall(r"undefined reference to `([A-Za-z_0-9]+)'", out)))
+        stub = exe_c + ".missing.c"
+        with open(stub, "w") as f:
+            f.write("#include <stdio.h>\n#include <stdlib.h>\n")
+            for m in missing:
+                f.write("void %s(void) { printf(\"UNMODELLED-CALL %s\\n\"); exit(4); }\n" % (m, m))
+        rc, out, dt, to = run(cmd + [stub], timeout=600)
     if rc != 0:
         raise Inconclusive("gcc build of generated C failed for %s:\n%s" % (ob["id"], out[-3000:]))
     agree = 0
